@@ -22,8 +22,14 @@ use log::warn;
 use rand::Rng;
 use std::collections::HashMap;
 use std::mem;
+#[cfg(not(similari_verif))]
 use std::sync::{Arc, Condvar, Mutex, RwLock, RwLockReadGuard, RwLockWriteGuard};
+#[cfg(similari_verif)]
+use similari_verif_rt::sync::{Arc, Condvar, Mutex, RwLock, RwLockReadGuard, RwLockWriteGuard};
+#[cfg(not(similari_verif))]
 use std::thread::{spawn, JoinHandle};
+#[cfg(similari_verif)]
+use similari_verif_rt::thread::{spawn, JoinHandle};
 
 type VotingSenderChannel = Sender<VotingCommands>;
 type VotingReceiverChannel = Receiver<VotingCommands>;
